@@ -165,32 +165,32 @@ func (s *Sched) schedule(cur *Goroutine, exiting bool) {
 		if len(rs) == 1 {
 			next = rs[0]
 		} else {
-			// prefer to keep running the current goroutine unless it blocked/exited;
-			// otherwise the choice among several runnable goroutines is a decision.
-			stay := false
-			if !exiting && cur.state == gRunnable {
+			if s.p.quiescing {
+				// the caller waits for the others: it is not a candidate itself
+				var others []*Goroutine
 				for _, r := range rs {
-					if r == cur {
-						stay = true
+					if r != cur {
+						others = append(others, r)
 					}
 				}
+				if len(others) > 0 {
+					rs = others
+				}
 			}
-			if stay && !s.p.yieldForks {
-				// explicit yield: rotate to the next goroutine id
-				idx := 0
-				for i, r := range rs {
+			if len(rs) == 1 {
+				next = rs[0]
+			} else if s.p.schedForks {
+				// schedule exploration: which runnable goroutine continues is a decision
+				next = rs[s.p.choose(len(rs))]
+			} else {
+				// deterministic round-robin: the next goroutine id after the current one
+				next = rs[0]
+				for _, r := range rs {
 					if r.id > cur.id {
-						idx = i
+						next = r
 						break
 					}
 				}
-				next = rs[idx]
-			} else {
-				k := 0
-				if s.p.schedForks {
-					k = s.p.choose(len(rs))
-				}
-				next = rs[k]
 			}
 		}
 		s.switches++
